@@ -121,10 +121,10 @@ func c08Seeds(thorough bool) map[string][]*devSeed {
 	depths := []int{4, 7, 8, 9, 16, 33}
 	if thorough {
 		depths = nil
-		for k := 4; k <= 64; k++ {
+		for k := 4; k <= 20; k++ {
 			depths = append(depths, k)
 		}
-		depths = append(depths, 100, 180)
+		depths = append(depths, 24, 31, 32, 33, 40, 63, 64, 65, 100, 180)
 	}
 	for _, k := range depths {
 		mk := map[string]func(i int) *wire.N{
